@@ -3,6 +3,6 @@
 cd /verif
 for d in tools/mutants/neutral/*/; do
 
-  tools/sens.py $d --scratch --all 2>&1 | grep -E "rc=" | awk '{print $1, $2, $3}' | tr '\n' ';'
+  DSIM_SCALE=0.4 tools/sens.py $d --scratch --all 2>&1 | grep -E "rc=" | awk '{print $1, $2, $3}' | tr '\n' ';'
   echo
 done
